@@ -38,6 +38,8 @@ if __name__ == "__main__":
 
     bind_repo()
     job = json.loads(open(sys.argv[1]).read())
+    if job.get("prelude"):  # something unrelated happens first in this process: the run of interest must not notice
+        run(job["prelude"], [2])
     r = run(job["cfg"], job["calls"], n_jobs=job.get("n_jobs", 1), verbose=job.get("verbose", False))
     r.pop("cal")
     err = r.pop("error")
